@@ -24,10 +24,10 @@ def nullness(br):
     if flip:
         r = nullness(Item(br, path=p))
         return (r[0], not r[1]) if r else None
-    m = re.fullmatch(r'\((.+) (==|!=) nullptr\)', p) or None
-    if m:
+    m = re.fullmatch(r'\((.+) (==|!=) (?:nullptr|0|false)\)', p) or None
+    if m and not (m.group(1).startswith('(') and ' ' in m.group(1)):
         return (m.group(1), br.val if m.group(2) == '!=' else (not br.val))
-    m = re.fullmatch(r'\(nullptr (==|!=) (.+)\)', p)
+    m = re.fullmatch(r'\((?:nullptr|0|false) (==|!=) (.+)\)', p)
     if m:
         return (m.group(2), br.val if m.group(1) == '!=' else (not br.val))
     if p.startswith('(') and ' ' in p:
@@ -65,14 +65,29 @@ def who(db, pred):
     return out
 
 
+def who_ok(db, f, allowed):
+    """may function f perform an operation reserved to the functions named in `allowed`?  Yes when it is one of them, a closure defined
+    inside one of them, or a helper all of whose callers (transitively) are - i.e. code extracted from an allowed function"""
+    allowed = set(allowed)
+    if f['nname'] in allowed:
+        return True
+    if only_reached_from(db, f['nname'], allowed):
+        return True
+    g = f; n = 0
+    while g is not None and g.get('lambda') and g.get('parent_key') and n < 4:
+        g = db.get(g['parent_key']); n += 1
+        if g is not None and (g['nname'] in allowed or only_reached_from(db, g['nname'], allowed)):
+            return True
+    return False
+
+
 def check_who(ctx, rid, found, allowed, what, floor=None, db=None):
     """found: {fname: [(f, e)]}; every fname must be in allowed, or be a helper reached only from allowed functions"""
     for fname, lst in sorted(found.items()):
         f, e = lst[0]
-        ok = fname in allowed or (db is not None and only_reached_from(db, fname, set(allowed)))
-        if not ok and f.get('lambda') and db is not None:
-            pf = db.get(f.get('parent_key')) if f.get('parent_key') else None
-            ok = pf is not None and (pf['nname'] in allowed or only_reached_from(db, pf['nname'], set(allowed)))
+        ok = fname in allowed or (db is not None and who_ok(db, f, allowed))
+        if False:
+            pf = None
         ctx.ob(rid, f, e.get('loc') or f['key'], ok, '%s only from the allowed set (here: %s)' % (what, fname),
                detail={'allowed': sorted(allowed)} if not ok else None, desc='%s from %s' % (what, fname))
 
@@ -136,7 +151,8 @@ def only_reached_from(db, fname, allowed, depth=3, _seen=None):
     cs = callers_of(db, fname)
     if not cs:
         return False
-    return all(c in allowed or only_reached_from(db, c, allowed, depth - 1, _seen) for c in cs)
+    # a caller that is a closure counts as the function it is defined in
+    return all(c in allowed or ('::(anonymous class)::' in c and re.sub(r'\(.*$', '', c) in allowed) or only_reached_from(db, c, allowed, depth - 1, _seen) for c in cs)
 
 
 THOROUGH = [False]      # set by check.py: the thorough tier evaluates path rules on every instantiation, not one per pattern
@@ -540,3 +556,61 @@ def ret_expr(tr):
                 return None
         return None
     return at(d0, len(tr))
+
+
+def ret_bool(tr):
+    """truth value the root function returns on this trace when it is decided by the path: a constant, or (a negation of) an expression
+    whose outcome a branch on this path has fixed (bool ok = ...; if (ok) {...} return !ok;)"""
+    c = ret_const(tr)
+    if c is not None:
+        return bool(c)
+    p = ret_expr(tr)
+    if not p:
+        return None
+    neg = False
+    while p.startswith('!(') and p.endswith(')'):
+        p = p[2:-1]; neg = not neg
+    if p.startswith('!') and re.fullmatch(r'!(local|param):\w+', p):
+        p = p[1:]; neg = not neg
+    for it in reversed(tr):
+        if it.k == 'branch' and it.get('depth', 0) == 0 and p in (it.get('opath'), it.get('path')):
+            return bool(it.val) != neg
+    return None
+
+
+def origin_in_trace(tr, idx, path, maxsteps=8):
+    """follow a value backwards along one trace: through local declarations, values returned by expanded helpers and std::exchange
+    (whose result is the old value of its first argument).  Returns (path of the origin, index in the trace where it was read)"""
+    for _ in range(maxsteps):
+        if path is None:
+            return None, idx
+        m = re.fullmatch(r'(?:move|forward|ctor)\((.*)\)', path)
+        if m:
+            path = m.group(1); continue
+        if re.fullmatch(r'local:\w+(#\d+)?', path):
+            j = next((j for j in range(idx - 1, -1, -1) if tr[j].k == 'decl' and tr[j].get('var') == path), None)
+            if j is None or tr[j].get('init') is None:
+                return path, idx
+            path, idx = tr[j].get('init'), j
+            continue
+        m = re.fullmatch(r'call\(([^()]*)\)', path)
+        if m:
+            callee = m.group(1)
+            if callee == 'std::exchange':
+                j = next((j for j in range(idx - 1, -1, -1) if tr[j].k == 'call' and norm(tr[j].get('callee') or '') == 'std::exchange'), None)
+                if j is None or not tr[j].get('args'):
+                    return path, idx
+                path, idx = tr[j]['args'][0].get('path'), j
+                continue
+            # a helper that was expanded: the value is what its body returned on this path
+            j = next((j for j in range(idx - 1, -1, -1) if tr[j].k == 'leave' and norm(tr[j].ev.get('callee') or '') == norm(callee)), None)
+            if j is None:
+                return path, idx
+            d = tr[j].get('depth', 0) + 1
+            r = next((k for k in range(j - 1, -1, -1) if tr[k].k == 'return' and tr[k].get('depth') == d), None)
+            if r is None or not tr[r].get('path'):
+                return path, idx
+            path, idx = tr[r]['path'], r
+            continue
+        return path, idx
+    return path, idx
